@@ -153,17 +153,17 @@ theorem pathmatch_star_counterexample_before_repair :
 
 /-- before the repair (C31-4): a directory pattern ending in `*` also matched regular files of the directory itself -/
 theorem pathmatch_dirpattern_counterexample_before_repair :
-    pathMatch .old .unix .regular "build/*/".toList "build/top.cpp".toList "/base".toList = true ∧
-    pathMatchSpecB .unix .regular "build/*/".toList "build/top.cpp".toList "/base".toList = false ∧
-    pathMatch .fixed .unix .regular "build/*/".toList "build/top.cpp".toList "/base".toList = false := by decide
+    pathMatch .old .unix .regular "a/*/".toList "/a/f".toList [] = true ∧
+    pathMatchSpecB .unix .regular "a/*/".toList "/a/f".toList [] = false ∧
+    pathMatch .fixed .unix .regular "a/*/".toList "/a/f".toList [] = false := by decide
 
 /-! the hypotheses are met by ordinary inputs, and the documented rule distinguishes them -/
-example : MatchOk .fixed .unix .regular "src/*.cpp".toList "src/a.cpp".toList "/base".toList = true := by decide
-example : pathMatch .fixed .unix .regular "src/*.cpp".toList "src/a.cpp".toList "/base".toList = true := by decide
-example : pathMatch .fixed .unix .regular "src/*.cpp".toList "src/sub/a.cpp".toList "/base".toList = false := by decide
-example : pathMatch .fixed .unix .regular "src/**/a.cpp".toList "./src/x/../sub//a.cpp".toList "/base".toList = true := by decide
-example : noTripleStar "src/**/*.c".toList = true ∧ starOkR "src/**/*.c".toList.reverse = true := by decide
-example : starOkR "a?*".toList.reverse = false := by decide
+example : MatchOk .fixed .unix .regular "s/*.c".toList "s/a.c".toList "/b".toList = true := by decide
+example : pathMatch .fixed .unix .regular "s/*.c".toList "s/a.c".toList "/b".toList = true ∧
+    pathMatch .fixed .unix .regular "s/*.c".toList "s/t/a.c".toList "/b".toList = false := by decide
+example : pathMatch .fixed .unix .regular "s/**/a".toList "./s/x/../t//a".toList "/b".toList = true := by decide
+example : noTripleStar "src/**/*.c".toList = true ∧ starOkR "src/**/*.c".toList.reverse = true ∧
+    starOkR "a?*".toList.reverse = false := by decide
 
 end Cppcheck.PathMatch
 
@@ -282,8 +282,8 @@ theorem lister_missing (ign : Str → Filemode → Bool) (acc : Str → Bool × 
 
 example : (Tree.dir [] [.file "b.cpp".toList, .dir "sub".toList [.file "a.c".toList, .file "n.txt".toList], .file "m.h".toList]).wf = true := by
   decide
-example : (addFiles (pathMatchList .fixed .unix ["sub/".toList] "/base".toList) (acceptFile []) "src/".toList
-    (some (.dir [] [.file "b.cpp".toList, .dir "sub".toList [.file "a.c".toList], .dir "lib".toList [.file "z.c".toList, .file "n.txt".toList]]))).2
-    = [("src/b.cpp".toList, .cpp), ("src/lib/z.c".toList, .c)] := by decide
+example : selected (fun p _ => p == "r/s".toList) (acceptFile []) "r".toList
+    (.dir [] [.file "b.cpp".toList, .dir "s".toList [.file "a.c".toList], .dir "l".toList [.file "z.c".toList, .file "n.txt".toList]])
+    = [("r/b.cpp".toList, .cpp), ("r/l/z.c".toList, .c)] := by decide
 
 end Cppcheck.FileLister
